@@ -167,7 +167,7 @@ def check(mode, prop, level, assumptions, call="vgen.CheckAll()"):
         if mode == "c14":
             for sig, desc in cli_check():
                 merged["violations"].append({"sig": sig, "desc": desc, "replay": {"id": "cli", "source": desc}})
-            merged["evaluations"] += 4
+            merged["evaluations"] += 8
         merged["rule"] = RULES[mode] % {"total": total}
         merged["parts"] = {mode: {"evaluations": merged["evaluations"], "distinct": merged["distinct"], "states": 0, "transitions": 0, "exhaustive": True, "wall_s": time.time() - t0, "rule": merged["rule"]}}
         return V.finish(prop_, level, tier, seed, merged, [], assumptions, t0)
@@ -195,12 +195,18 @@ def cli_check():
         "lexerr": ("options ( go_package=\"x/lexerr\" )\nmessage M { a int32 1; }\noptions (\n x=\"abc\n)\n", 1),
         "badchar": ("options ( go_package=\"x/badchar\" )\nmessage M { a int32 1; } @\n", 1),
         "rule": ("options ( go_package=\"x/rule\" )\nmessage M { a int32 0; }\n", 1),
+        # lexical errors that leave a token sequence the grammar accepts: the scanner reports them, the parser must not
+        # drop the report (the file is valid apart from the error)
+        "blockcomment": ("options ( go_package=\"x/blockcomment\" )\nmessage M { a int32 1; }\n/* never closed\n", 1),
+        "escape": ("options ( go_package=\"x/escape\" )\noptions ( note=\"a\\qb\" )\nmessage M { a int32 1; }\n", 1),
+        "nul": ("options ( go_package=\"x/nul\" )\nmessage M { a int32 1; }\n\x00\nmessage N { b int32 1; }\n", 1),
+        "badutf8": ("options ( go_package=\"x/badutf8\" )\n// comment \udcff\nmessage M { a int32 1; }\n", 1),
     }
     out = []
     for name, (text, want_fail) in cases.items():
         sd = os.path.join(d, name)
         os.makedirs(sd)
-        with open(os.path.join(sd, "f.spec"), "w") as f:
+        with open(os.path.join(sd, "f.spec"), "w", encoding="utf-8", errors="surrogateescape") as f:
             f.write(text)
         r = subprocess.run([binp, "generate", sd, os.path.join(d, "out_" + name)], capture_output=True, text=True, timeout=60)
         failed = r.returncode != 0
